@@ -101,17 +101,19 @@ def pixel2index(w, seed, spec):
             fails.append('no TypeError without coordinates')
         except TypeError:
             pass
-    # dtype wide enough for N (needs 64-bit mode to be observable)
+    # dtype wide enough for N (needs 64-bit mode to be observable): every index 0..N-1 is representable, and the last
+    # and first pixels get their indices (the range test is exact)
     if jax.config.jax_enable_x64:
-        for shape, want in [((2 ** 31 - 1,), 'int32'), ((2 ** 31 + 1,), 'int64'), ((2 ** 16, 2 ** 15), 'int32'),
-                            ((2 ** 16, 2 ** 15 + 1), 'int64'), ((7,), 'int32')]:
+        for shape in [(2 ** 31 - 1,), (2 ** 31,), (2 ** 31 + 1,), (1, 2 ** 31), (2 ** 16, 2 ** 15), (2 ** 16, 2 ** 15 + 1), (7,)]:
             l = L(shape)
-            c = [jnp.asarray([float(n - 1)]) for n in l.pixel_shape]
+            n = int(np.prod(shape))
+            c = [jnp.asarray([float(m - 1), 0.0, 1.0 if m > 1 else 0.0]) for m in l.pixel_shape]
             r = l.pixel2index(*c)
-            if str(r.dtype) != want:
-                fails.append(f'shape {shape}: index dtype {r.dtype}, expected {want}')
-            if int(r[0]) != int(np.prod(shape)) - 1:
-                fails.append(f'shape {shape}: last pixel gets index {int(r[0])}')
+            if np.iinfo(np.dtype(str(r.dtype))).max < n - 1:
+                fails.append(f'shape {shape}: index dtype {r.dtype} cannot hold the largest index {n - 1}')
+            want = [n - 1, 0, sum(int(np.prod(l.pixel_shape[:d])) for d, m in enumerate(l.pixel_shape) if m > 1)]
+            if [int(v) for v in r] != want:
+                fails.append(f'shape {shape}: corner pixels get indices {[int(v) for v in r]}, expected {want} (dtype {r.dtype})')
     return fails[:8]
 
 
